@@ -110,3 +110,163 @@ Proof.
   apply (enqueue_schedules eda g w Hc _ _ _ _ _ _ E I0 O1 eq_refl Hin Cu Du).
   simpl. rewrite set_rm_In. intros [H1 H2]. destruct Hp as [->|Hp]; [apply H2; reflexivity | exact (Hp H1)].
 Qed.
+
+(* ------------------------------------------------------------------ the OK release *)
+(* Coverage invariant of the memo: whenever the memo covers a phase, every traversable
+   member of it whose dependencies are done and which is not pending is on todo.  It
+   holds for the cleared memo, every Enqueue preserves it, and an Enqueue leaves its
+   own phase covered — so after Return's Enqueue of all released tasks each of them
+   that is ready to run is on todo. *)
+Section Cover.
+Variable eda : bool.
+Variable g : list tnode.
+Variable w : nat -> tstate.
+Hypothesis Hwf : wf g.
+
+Definition cov (s : state) : Prop :=
+  forall u, swait s (head g u) <> None -> enq_class eda (w u) = CTrav -> deps_done eda g w u ->
+            ~ In u (spending s) -> In u (stodo s).
+
+Lemma cov_mono s s' :
+  ext s s' -> (forall h, swait s' h <> None -> swait s h <> None) -> cov s -> cov s'.
+Proof.
+  intros X Hm C u Hw Cu Du Hp. apply (ext_todo _ _ X). apply C; auto.
+  rewrite <- (ext_pending _ _ X). exact Hp.
+Qed.
+
+Lemma cov_schedule s x : cov s -> cov (schedule s x).
+Proof.
+  apply cov_mono; [apply schedule_ext|]. intros h H.
+  destruct (schedule_fields s x) as [_ [_ [_ [E _]]]]. rewrite E in H. exact H.
+Qed.
+Lemma cov_clear s x : cov s -> cov (clear g s x).
+Proof. apply cov_mono; [apply clear_ext | intros h H; exact H]. Qed.
+Lemma cov_add s a b n : cov s -> cov (add s a b n).
+Proof.
+  apply cov_mono; [apply add_ext|]. intros h H.
+  destruct (add_fields s a b n) as [_ [_ [E _]]]. rewrite E in H. exact H.
+Qed.
+
+Definition rec_cov (rec : state -> nat -> state * nat) : Prop :=
+  forall s d s' k, rec s d = (s', k) -> inv eda g w s -> cov s -> soof s' = false -> cov s'.
+
+Lemma enq_deps_cov rec x :
+  (forall s d, ext s (fst (rec s d))) -> rec_spec eda g w rec -> rec_cov rec ->
+  forall ds s ready s' ready',
+    enq_deps rec x ds s ready = (s', ready') -> inv eda g w s -> cov s -> soof s' = false -> cov s'.
+Proof.
+  intros Hext Hrec Hcov. induction ds as [|d r IH]; intros s ready s' ready' E I C O; simpl in E.
+  - inversion E; subst. exact C.
+  - destruct (rec s d) as [s1 k] eqn:R.
+    assert (X2 : ext s1 s').
+    { destruct k.
+      - pose proof (enq_deps_ext rec x Hext r s1 ready) as X. rewrite E in X. exact X.
+      - pose proof (enq_deps_ext rec x Hext r (add s1 d x (S k)) false) as X. rewrite E in X.
+        eapply ext_trans; [apply add_ext | exact X]. }
+    pose proof (ext_oof_false _ _ X2 O) as O1.
+    destruct (Hrec s d s1 k R I O1) as [I1 _].
+    pose proof (Hcov s d s1 k R I C O1) as C1.
+    destruct k.
+    + exact (IH _ _ _ _ E I1 C1 O).
+    + exact (IH _ _ _ _ E (inv_add eda g w _ _ _ _ I1) (cov_add _ _ _ _ C1) O).
+Qed.
+
+Lemma enq_phase_cov rec :
+  (forall s d, ext s (fst (rec s d))) -> rec_spec eda g w rec -> rec_cov rec ->
+  forall us s n s' n',
+    enq_phase eda g w rec us s n = (s', n') -> inv eda g w s -> cov s -> soof s' = false -> cov s'.
+Proof.
+  intros Hext Hrec Hcov. induction us as [|x r IH]; intros s n s' n' E I C O.
+  - simpl in E. inversion E; subst. exact C.
+  - pose proof (enq_phase_spec eda g w rec Hext Hrec [x] s n) as Hone.
+    simpl in E. simpl in Hone.
+    destruct (enq_class eda (w x)) eqn:Cx.
+    + exact (IH _ _ _ _ E I C O).
+    + pose proof (enq_phase_ext eda g w rec Hext r (schedule s x) (S n)) as X. rewrite E in X. simpl in X.
+      destruct (Hone _ _ eq_refl I (ext_oof_false _ _ X O)) as [I1 _].
+      exact (IH _ _ _ _ E I1 (cov_schedule _ _ C) O).
+    + destruct (enq_deps rec x (tdeps (node g x)) (clear g s x) true) as [s1 ready] eqn:D.
+      set (s2 := if ready then schedule s1 x else s1) in *.
+      assert (X2 : ext s1 s2) by (subst s2; destruct ready; [apply schedule_ext | apply ext_refl]).
+      pose proof (enq_phase_ext eda g w rec Hext r s2 (S n)) as X3. rewrite E in X3. simpl in X3.
+      assert (O2 : soof s2 = false) by (eapply ext_oof_false; [exact X3 | exact O]).
+      assert (O1 : soof s1 = false) by (eapply ext_oof_false; [exact X2 | exact O2]).
+      destruct (Hone _ _ eq_refl I O2) as [I2 _].
+      pose proof (enq_deps_cov rec x Hext Hrec Hcov _ _ _ _ _ D (inv_clear eda g w _ _ I) (cov_clear _ _ C) O1) as C1.
+      assert (C2 : cov s2) by (subst s2; destruct ready; [apply cov_schedule; exact C1 | exact C1]).
+      exact (IH _ _ _ _ E I2 C2 O).
+Qed.
+
+Lemma same_head_in_phase t u : head g u = head g t -> In u (phase g t).
+Proof.
+  intro H. pose proof (wf_closed g Hwf) as Hc. destruct Hwf as [H1 _].
+  rewrite <- (Hc t), <- H, (Hc u). apply H1.
+Qed.
+
+Lemma enqueue_cov : forall fuel, rec_cov (enqueue eda g w fuel).
+Proof.
+  pose proof (wf_closed g Hwf) as Hc.
+  induction fuel as [|f IH]; intros s t s' k E I C O; simpl in E.
+  - destruct (swait s (head g t)) as [n|] eqn:W; inversion E; subst; [exact C|]. simpl in O. discriminate.
+  - destruct (swait s (head g t)) as [n|] eqn:W; [inversion E; subst; exact C|].
+    destruct (enq_phase eda g w (enqueue eda g w f) (phase g t) s 0) as [s1 n] eqn:P.
+    inversion E; subst. clear E. simpl in O.
+    pose proof (enq_phase_cov _ (enqueue_ext eda g w f) (enqueue_spec eda g w Hc f) IH _ _ _ _ _ P I C O) as C1.
+    pose proof (enq_phase_ext eda g w _ (enqueue_ext eda g w f) (phase g t) s 0) as X. rewrite P in X. simpl in X.
+    intros u Hw Cu Du Hp. simpl in *. unfold upd in Hw.
+    destruct (Nat.eqb (head g u) (head g t)) eqn:Eh.
+    + apply Nat.eqb_eq in Eh.
+      apply (enq_phase_schedules eda g w _ u (enqueue_ext eda g w f) (enqueue_spec eda g w Hc f) Cu Du _ _ _ _ _ P I O).
+      * apply same_head_in_phase. exact Eh.
+      * rewrite <- (ext_pending _ _ X). exact Hp.
+    + apply C1; auto.
+Qed.
+
+Lemma enqueue_all_cov : forall ts s,
+  inv eda g w s -> cov s -> soof (enqueue_all eda g w s ts) = false -> cov (enqueue_all eda g w s ts).
+Proof.
+  pose proof (wf_closed g Hwf) as Hc.
+  unfold enqueue_all. induction ts as [|t r IH]; intros s I C O; cbn [fold_left] in *; [exact C|].
+  destruct (enqueue eda g w (fuel_of g) s t) as [s1 k] eqn:E. cbn [fst] in *.
+  pose proof (enqueue_all_ext eda g w r s1) as X. unfold enqueue_all in X.
+  pose proof (ext_oof_false _ _ X O) as O1.
+  destruct (enqueue_spec eda g w Hc _ _ _ _ _ E I O1) as [I1 _].
+  exact (IH s1 I1 (enqueue_cov _ _ _ _ _ E I C O1) O).
+Qed.
+
+End Cover.
+
+(* what Return's "case TaskOk" computes before it enqueues: the tasks whose count of
+   outstanding dependencies reaches zero with the completion of [t] (state.done) *)
+Definition ret_ready (g : list tnode) (s : state) (t : nat) : list nat :=
+  snd (done_op (mkS (sdeps s) (scounts s) (stodo s) (set_rm t (spending s)) (fun _ => None) (serr s) (soof s))
+               (head g t)).
+
+(* Return of an OK task: every task it releases that is traversable, has all its
+   dependencies done and is not pending is on todo when Return returns. *)
+Theorem released_by_ok_at_once eda g w s t u :
+  wf g -> soof s = false -> stodo s = [] ->
+  ret_class (w t) = ROk ->
+  In u (ret_ready g s t) -> enq_class eda (w u) = CTrav -> deps_done eda g w u ->
+  ~ In u (spending s) ->
+  In u (stodo (ret eda g w s t)).
+Proof.
+  intros Hwf O Et C Hin Cu Du Hp.
+  pose proof (wf_closed g Hwf) as Hc.
+  pose proof Hwf as [_ [_ [_ [rk [Hb Hrk]]]]].
+  unfold ret. rewrite C. unfold ret_ready in Hin.
+  set (s0 := mkS (sdeps s) (scounts s) (stodo s) (set_rm t (spending s)) (fun _ => None) (serr s) (soof s)) in *.
+  assert (I0 : inv eda g w s0) by (apply inv_empty; [exact Et | reflexivity]).
+  pose proof (done_fold_fields (sdeps s0 (head g t)) s0 []) as F. unfold done_op in *.
+  destruct (fold_left done_one (sdeps s0 (head g t)) (s0, [])) as [s1 ready]. simpl in F, Hin.
+  destruct F as [_ [F1 [F2 [F3 [F4 F5]]]]].
+  assert (I1 : inv eda g w s1) by (apply (inv_fields eda g w s0 s1); [exact F1 | exact F3 | exact F2 | exact I0]).
+  assert (C1 : cov eda g w s1) by (intros x Hw; rewrite F3 in Hw; simpl in Hw; congruence).
+  assert (O1 : soof (enqueue_all eda g w s1 ready) = false).
+  { apply (enqueue_all_no_oof eda g w rk Hrk Hb). rewrite F5. exact O. }
+  pose proof (enqueue_all_cov eda g w Hwf ready s1 I1 C1 O1) as C2.
+  destruct (enqueue_all_spec eda g w Hc ready s1 I1 O1) as [_ W2].
+  apply C2; auto.
+  rewrite (ext_pending _ _ (enqueue_all_ext eda g w ready s1)), F2. simpl.
+  rewrite set_rm_In. intros [H _]. exact (Hp H).
+Qed.
